@@ -22,7 +22,9 @@ struct c05slot { QAD h; uint16_t data[C05_MAXLEN]; uint32_t id; };
 static struct c05slot c05_s0 = { { {{{{{ (uint32_t)-1 }}}}}, 0, 0, C05_SLOT_OFF }, {0}, 0 }; static struct c05slot c05_s1 = { { {{{{{ (uint32_t)-1 }}}}}, 0, 0, C05_SLOT_OFF }, {0}, 0 }; static struct c05slot c05_s2 = { { {{{{{ (uint32_t)-1 }}}}}, 0, 0, C05_SLOT_OFF }, {0}, 0 }; static struct c05slot c05_s3 = { { {{{{{ (uint32_t)-1 }}}}}, 0, 0, C05_SLOT_OFF }, {0}, 0 }; static struct c05slot c05_s4 = { { {{{{{ (uint32_t)-1 }}}}}, 0, 0, C05_SLOT_OFF }, {0}, 0 }; static struct c05slot c05_s5 = { { {{{{{ (uint32_t)-1 }}}}}, 0, 0, C05_SLOT_OFF }, {0}, 0 }; static struct c05slot c05_s6 = { { {{{{{ (uint32_t)-1 }}}}}, 0, 0, C05_SLOT_OFF }, {0}, 0 }; static struct c05slot c05_s7 = { { {{{{{ (uint32_t)-1 }}}}}, 0, 0, C05_SLOT_OFF }, {0}, 0 };
 static struct c05slot *c05_slot(uint32_t k) { switch (k) { case 1: return &c05_s1; case 2: return &c05_s2; case 3: return &c05_s3; case 4: return &c05_s4; case 5: return &c05_s5; case 6: return &c05_s6; case 7: return &c05_s7; } return &c05_s0; }
 char* vp_c05_slot(uint32_t k) { return (char*)c05_slot(k); }
-void vp_c05_set_id(uint32_t k, uint32_t id) { c05_slot(k)->id = id; }
+#include "table_c.inc"
+/* harness entry: slot k := table row i (characters, size, ghost id) */
+void vp_c05_fill(uint32_t k, uint32_t i) { struct c05slot *s = c05_slot(k); s->h.f1 = c05_fill_row(i, s->data); s->id = i; }
 /* Comparison kernels as straight-line expressions (no loop, one symex step each): E(i): unit i is beyond the compared
    length or equal; D(i)/S(i): unit i is within the length and differs / the sign of the difference. */
 #define E(i) ((uint32_t)((i) >= n ? 1 : (a[i] == b[i])))
